@@ -325,7 +325,7 @@ package crypto
 // Feldman VSS with qualification (one dealer instance)
 
 //@ pred qualShape(s) = s != nil && vssShape(s.feldmanVSSstate) && obj(s) != obj(s.feldmanVSSstate) && obj(s) != obj(s.dkgCommon) && s.complaints != nil
-//@ pred complaintsOK(s) = forall(k, 0, 256, has(s.complaints, k) ==> k < s.size && s.complaints[k] != nil && typed(s.complaints[k]) && ownedby(s.complaints[k], s.complaints)) && forall(j, 0, 256, forall(k, 0, 256, has(s.complaints, j) && has(s.complaints, k) && j != k ==> s.complaints[j] != s.complaints[k]))
+//@ pred complaintsOK(s) = forall(k, 0, 256, has(s.complaints, k) ==> k < s.size && s.complaints[k] != nil && typed(s.complaints[k]) && ownedby(s.complaints[k], s.complaints) && keyof(s.complaints[k]) == k)
 //@ pred ownComplaint(s) = has(s.complaints, s.myIndex) && s.complaints[s.myIndex].received
 //@ pred qualPhase(s) = (s.complaintsTimeout ==> s.sharesTimeout) && (s.vAReceived && !s.disqualified ==> len(s.vA) == s.threshold+1 && len(s.y) == s.size) && (s.running && s.myIndex == s.dealerIndex ==> len(s.a) == s.threshold+1) && (s.sharesTimeout && !s.disqualified ==> s.vAReceived) && (ownComplaint(s) ==> s.xReceived || s.sharesTimeout)
 //@ pred qualInv(s) = qualShape(s) && complaintsOK(s) && qualPhase(s)
@@ -426,7 +426,7 @@ package crypto
 //@ requires qualInv(s) && s.running && !s.disqualified
 //@ requires [at-most-one-complaint] !ownComplaint(s)
 //@ assigns obj(s.complaints), ghost(s.processor)
-//@ ensures has(s.complaints, s.myIndex) && fresh(s.complaints[s.myIndex]) && typed(s.complaints[s.myIndex]) && ownedby(s.complaints[s.myIndex], s.complaints) && s.complaints[s.myIndex].received && !s.complaints[s.myIndex].answerReceived
+//@ ensures has(s.complaints, s.myIndex) && fresh(s.complaints[s.myIndex]) && typed(s.complaints[s.myIndex]) && ownedby(s.complaints[s.myIndex], s.complaints) && keyof(s.complaints[s.myIndex]) == s.myIndex && s.complaints[s.myIndex].received && !s.complaints[s.myIndex].answerReceived
 //@ ensures forall(k, 0, 256, k != s.myIndex ==> has(s.complaints, k) == old(has(s.complaints, k)) && s.complaints[k] == old(s.complaints[k]))
 //@ ensures len(s.complaints) == old(len(s.complaints)) + ite(old(has(s.complaints, s.myIndex)), 0, 1)
 //@ ensures [complaints-ok] complaintsOK(s)
@@ -475,3 +475,44 @@ package crypto
 //@ ensures [reject-index] old(s.jointRunning) && (participant < 0 || participant >= s.size) ==> iserr(result, *invalidInputsError) && nothingAssigned()
 //@ ensures [accept] old(s.jointRunning) && 0 <= participant && participant < s.size ==> result == nil && s.fvss[participant].disqualified
 //@ ensures [inv] jfInv(s) && unchanged(s.jointRunning)
+
+//@ pred jfCore(s) = jfShape(s) && forall(j, 0, s.size, jfInst(s, j)) && jfSep(s) && unchanged(s.jointRunning) && unchanged(s.running) && unchanged(s.dkgCommon) && unchanged(s.fvss) && unchanged(s.size) && unchanged(s.threshold) && unchanged(s.myIndex) && unchanged(s.processor)
+
+//@ func (*JointFeldmanState).NextTimeout mode int props C10 C09
+//@ requires jfInv(s)
+//@ assigns everything
+//@ ensures [reject-idle] !old(s.jointRunning) ==> iserr(result, *dkgInvalidStateTransitionError) && nothingAssigned()
+//@ ensures [reject-third] old(s.jointRunning) && old(s.fvss[0].complaintsTimeout) ==> iserr(result, *dkgInvalidStateTransitionError) && nothingAssigned()
+//@ ensures [first] old(s.jointRunning) && !old(s.fvss[0].sharesTimeout) ==> result == nil && forall(j, 0, s.size, s.fvss[j].sharesTimeout && !s.fvss[j].complaintsTimeout)
+//@ ensures [second] old(s.jointRunning) && old(s.fvss[0].sharesTimeout) && !old(s.fvss[0].complaintsTimeout) ==> result == nil && forall(j, 0, s.size, s.fvss[j].sharesTimeout && s.fvss[j].complaintsTimeout)
+//@ ensures [inv] jfInv(s) && unchanged(s.jointRunning)
+//@ loop 1 invariant [range] 0 <= i && i <= s.size && old(s.jointRunning) && s.running
+//@ loop 1 invariant [pristine] i == 0 ==> nothingAssigned()
+//@ loop 1 invariant [core] jfCore(s)
+//@ loop 1 invariant [accepting] i > 0 ==> !old(s.fvss[0].complaintsTimeout)
+//@ loop 1 invariant [advanced] forall(j, 0, i, s.fvss[j].sharesTimeout && s.fvss[j].complaintsTimeout == old(s.fvss[0].sharesTimeout))
+//@ loop 1 invariant [pending] forall(j, i, s.size, s.fvss[j].sharesTimeout == old(s.fvss[0].sharesTimeout) && s.fvss[j].complaintsTimeout == old(s.fvss[0].complaintsTimeout))
+
+//@ func (*JointFeldmanState).HandleBroadcastMsg mode int props C10 C08 C09
+//@ requires jfInv(s)
+//@ assigns everything
+//@ ensures [reject-idle] !old(s.jointRunning) ==> iserr(result, *dkgInvalidStateTransitionError) && nothingAssigned()
+//@ ensures [reject-origin] old(s.jointRunning) && (orig < 0 || orig >= s.size) ==> iserr(result, *invalidInputsError) && nothingAssigned()
+//@ ensures [accept] old(s.jointRunning) && 0 <= orig && orig < s.size ==> result == nil
+//@ ensures [inv] jfInv(s) && unchanged(s.jointRunning)
+//@ loop 1 invariant [range] 0 <= i && i <= s.size && old(s.jointRunning) && s.running
+//@ loop 1 invariant [pristine] i == 0 ==> nothingAssigned()
+//@ loop 1 invariant [core] jfCore(s) && jfLock(s)
+//@ loop 1 invariant [accepting] i > 0 ==> 0 <= orig && orig < s.size
+
+//@ func (*JointFeldmanState).HandlePrivateMsg mode int props C10 C08 C09
+//@ requires jfInv(s)
+//@ assigns everything
+//@ ensures [reject-idle] !old(s.jointRunning) ==> iserr(result, *dkgInvalidStateTransitionError) && nothingAssigned()
+//@ ensures [reject-origin] old(s.jointRunning) && (orig < 0 || orig >= s.size) ==> iserr(result, *invalidInputsError) && nothingAssigned()
+//@ ensures [accept] old(s.jointRunning) && 0 <= orig && orig < s.size ==> result == nil
+//@ ensures [inv] jfInv(s) && unchanged(s.jointRunning)
+//@ loop 1 invariant [range] 0 <= i && i <= s.size && old(s.jointRunning) && s.running
+//@ loop 1 invariant [pristine] i == 0 ==> nothingAssigned()
+//@ loop 1 invariant [core] jfCore(s) && jfLock(s)
+//@ loop 1 invariant [accepting] i > 0 ==> 0 <= orig && orig < s.size
